@@ -347,6 +347,11 @@ theorem partition_refuses_inflight (w : World) (x y li id : Nat) (l : Link Env)
   simp only [hf, hl]
   obtain ⟨s, hs1, hs2⟩ := hs
   refine dropEnvs_drops _ { w with links := setAt w.links li fun _ => l.explicitPartition.1 } id (by exact hid) (by exact hp) ?_
-  exact ⟨s.msg, List.mem_map.mpr ⟨s, hs1, rfl⟩, hs2⟩
+  have hg : s ∈ l.explicitPartition.2 := by
+    unfold Link.explicitPartition
+    split
+    · simp [hs1]
+    · exact hs1
+  exact ⟨s.msg, List.mem_map.mpr ⟨s, hg, rfl⟩, hs2⟩
 
 end TV.C12
